@@ -880,8 +880,25 @@ func init() {
 					if !ok || !isNilConst(resolveLoad(ret.Results[len(ret.Results)-1])) {
 						continue
 					}
+					// a cache hit: the return is reached only over the edge on which the key field equals the
+					// requested chunk, and nothing of the cached state was written on the way - the loader
+					// has nothing to re-establish
+					hit := cacheHitReturn(fn, targets, b)
+					if hit {
+						for _, f := range sp.fields {
+							for _, e := range ev[f] {
+								if e.ins.Block() == b || blockReaches(e.ins.Block(), b) {
+									hit = false
+								}
+							}
+						}
+					}
 					for _, f := range sp.fields {
 						key := sp.fn + "/" + f + "@" + blockDesc(b)
+						if hit {
+							r.ok(key, sp.fn, c.pos(retPos(ret, b)), "cache hit (key == requested chunk, nothing of the cached chunk written on the way): ."+f+" stays as established")
+							continue
+						}
 						// exception: loaders with an early "nothing encoded" exit that installs an empty reader
 						evBlocks := map[*ssa.BasicBlock]bool{}
 						for _, e := range ev[f] {
@@ -2125,4 +2142,66 @@ func establishedBeforeUse(c *Ctx, fv *types.Var) string {
 		return ""
 	}
 	return "every use of ." + fv.Name() + " comes after " + fnName(est.Call.StaticCallee()) + " has re-established all of its fields (at " + c.pos(est.Pos()) + ")"
+}
+
+// cacheHitReturn: block b is reached only over the edge of a test on which a
+// key field of the receiver (curChunkNum / currChunk) equals a parameter.
+func cacheHitReturn(fn *ssa.Function, targets map[ssa.Value]bool, b *ssa.BasicBlock) bool {
+	keyFields := map[string]bool{"curChunkNum": true, "currChunk": true}
+	isKeyLoad := func(v ssa.Value) bool {
+		ld, ok := stripConv(v).(*ssa.UnOp)
+		if !ok || ld.Op != token.MUL {
+			return false
+		}
+		fa, ok := ld.X.(*ssa.FieldAddr)
+		if !ok || !targets[fa.X] {
+			return false
+		}
+		_, f := fieldAddrInfo(fa)
+		return f != nil && keyFields[f.Name()]
+	}
+	isParam := func(v ssa.Value) bool {
+		_, ok := stripConv(v).(*ssa.Parameter)
+		return ok
+	}
+	for _, tb := range fn.Blocks {
+		ifi, ok := tb.Instrs[len(tb.Instrs)-1].(*ssa.If)
+		if !ok {
+			continue
+		}
+		bin, ok := ifi.Cond.(*ssa.BinOp)
+		if !ok || (bin.Op != token.EQL && bin.Op != token.NEQ) {
+			continue
+		}
+		if !(isKeyLoad(bin.X) && isParam(bin.Y) || isKeyLoad(bin.Y) && isParam(bin.X)) {
+			continue
+		}
+		e := tb.Succs[0]
+		if bin.Op == token.NEQ {
+			e = tb.Succs[1]
+		}
+		if len(e.Preds) == 1 && (e == b || e.Dominates(b)) {
+			return true
+		}
+	}
+	return false
+}
+
+// blockReaches: to is reachable from a successor of from.
+func blockReaches(from, to *ssa.BasicBlock) bool {
+	seen := map[*ssa.BasicBlock]bool{}
+	work := append([]*ssa.BasicBlock{}, from.Succs...)
+	for len(work) > 0 {
+		x := work[len(work)-1]
+		work = work[:len(work)-1]
+		if seen[x] {
+			continue
+		}
+		seen[x] = true
+		if x == to {
+			return true
+		}
+		work = append(work, x.Succs...)
+	}
+	return false
 }
